@@ -258,6 +258,9 @@ class C11(Property):
                                                canon(element_of(A, slot).generate_xml()) == canon(element_of(B, slot).generate_xml()))
         except Exception as ex:
             res['restored'] = 'raised:' + type(ex).__name__
+        # the back references of everything A and B hold lead to A and B themselves
+        from vf import ownership
+        res['owned'] = not (ownership.audit(A) or ownership.audit(B))
         # independence: mutate A, B must not change, and vice versa
         bb = full(B)
         for e in (A.get_event_type('t'), A.get_object_type('ot'), A.get_concept('c.v')):
@@ -310,7 +313,7 @@ class C11(Property):
         if 'err' in r:
             return {'err': r['err'], 'expected_failure': True}
         res = {'ok': self.expected_view(case, r, case['order']), 'untouched': True, 'monotone': True,
-               'idempotent': True, 'older_ignored': True, 'restored': True, 'b_independent': True, 'a_independent': True}
+               'idempotent': True, 'older_ignored': True, 'restored': True, 'owned': True, 'b_independent': True, 'a_independent': True}
         if len(case['order']) == 2:
             rr = replies[1]
             res['reverse'] = {'err': rr['err']} if 'err' in rr else self.expected_view(case, rr, case['order'][::-1])
@@ -341,6 +344,9 @@ class C11(Property):
         if obs['restored'] is not True:
             return ('after deleting a definition from A, updating A again from the same ontology B does not bring in the '
                     'definition that B holds (%s)' % obs['restored'])
+        if obs.get('owned') is False:
+            return ('after the updates an ontology holds elements that refer back to another object than the one that holds them '
+                    '(a definition was adopted by reference): the ontologies are not independent')
         if not obs['b_independent'] or not obs['a_independent']:
             return 'the two ontologies are not independent after the update: mutating one changed the other'
         if 'reverse' in obs and isinstance(obs['reverse'], dict) and 'err' not in obs['reverse'] and obs['reverse'] != obs['ok']:
